@@ -101,6 +101,7 @@ func (v *verifier) query(st *State, extraHyps []*sx.T, goal *sx.T) *smt.Query {
 	hyps = append(hyps, extraHyps...)
 	if v.axioms == nil && v.sp != nil {
 		env := spec.NewEnv(v.sp, v.e.Structs)
+		env.Lists = v.e.Lists
 		for _, a := range v.sp.Axioms {
 			v.axioms = append(v.axioms, env.Tr(a.Body).T)
 		}
@@ -473,6 +474,28 @@ func (e *Engine) applyContract(fr *frame, st *State, fn *types.Func, decl *ast.F
 			resNames = append(resNames, n)
 		}
 	}
+	if fs.Logged {
+		// ghost log of internal calls: the caller's contract can count them and name their results
+		name := specKey(fn)
+		ev := spec.Event{Name: name}
+		for _, a := range args {
+			if a.T != nil {
+				ev.Args = append(ev.Args, a.T)
+				ev.Sorts = append(ev.Sorts, a.Ty.Sort())
+			}
+		}
+		pos := e.xlog(st, name)
+		e.xappend(st, name, ev)
+		if len(rets) > 0 && rets[0].T != nil {
+			fnName := "cres_" + strings.NewReplacer(".", "_", "-", "_").Replace(name)
+			e.extraFn["cres:"+fnName] = fmt.Sprintf("(declare-fun %s (Int) Any)", fnName)
+			boxed := e.box(rets[0], spec.Type{K: spec.KAny})
+			st.facts = append(st.facts, sx.App("=", sx.App(fnName, (&pos).LenT()), boxed))
+			if rets[0].Ty.K == spec.KInt { // unbox(box(x)) == x for this value
+				st.facts = append(st.facts, sx.App("=", e.uf("unbox_Int", spec.Type{K: spec.KInt}, Val{TV: spec.TV{T: boxed, Ty: spec.Type{K: spec.KAny}}}).T, rets[0].T))
+			}
+		}
+	}
 	// postconditions: facts, except equations on the ghost logs, which assign the log
 	type logAssign struct {
 		cond  spec.Expr
@@ -504,6 +527,42 @@ func (e *Engine) applyContract(fr *frame, st *State, fn *types.Func, decl *ast.F
 				facts = append(facts, &spec.EBinary{Op: "==>", X: cond, Y: cj})
 			} else {
 				facts = append(facts, cj)
+			}
+		}
+	}
+	// a clause `r == E` of a pure callee defines the result: use the term E itself instead of a fresh symbol, so that
+	// quantified facts about E (triggers) apply to what the caller holds
+	if fs.Pure && len(rets) >= 1 {
+		for _, c := range fs.Clauses {
+			if c.Kind != "ensures" || c.Finding != "" {
+				continue
+			}
+			for _, cj := range conjuncts(c.E) {
+				b, ok := cj.(*spec.EBinary)
+				if !ok || b.Op != "==" {
+					continue
+				}
+				id, ok := b.X.(*spec.EIdent)
+				if !ok {
+					continue
+				}
+				for i, rn := range resNames {
+					if i >= len(rets) || rn != id.Name || mentions(b.Y, rn) {
+						continue
+					}
+					func() {
+						defer func() { recover() }() // not translatable in the pre-state: keep the fresh symbol
+						tv := pre.Tr(b.Y)
+						rt := rets[i].Ty
+						switch {
+						case tv.Ty.K == rt.K && tv.Ty.Name == rt.Name && tv.T != nil:
+							rets[i].TV.T = tv.T
+						case tv.Ty.K == spec.KBytes && rt.K == spec.KNB:
+							// content is defined, nil-ness stays that of the fresh symbol
+							rets[i].TV.T = sx.App("mkNB", sx.App("isnull", rets[i].T), tv.T)
+						}
+					}()
+				}
 			}
 		}
 	}
@@ -544,6 +603,64 @@ func (e *Engine) applyContract(fr *frame, st *State, fn *types.Func, decl *ast.F
 		e.branch(st, mkPost(st).Tr(a.cond).T, set, func(st *State) { apply(i+1, st) })
 	}
 	apply(0, st)
+}
+
+// mentions reports whether a specification expression refers to the identifier name.
+func mentions(x spec.Expr, name string) bool {
+	found := false
+	var walk func(e spec.Expr)
+	walk = func(e spec.Expr) {
+		if found || e == nil {
+			return
+		}
+		switch t := e.(type) {
+		case *spec.EIdent:
+			if t.Name == name {
+				found = true
+			}
+		case *spec.EUnary:
+			walk(t.X)
+		case *spec.EBinary:
+			walk(t.X)
+			walk(t.Y)
+		case *spec.ECond:
+			walk(t.C)
+			walk(t.A)
+			walk(t.B)
+		case *spec.ECall:
+			for _, a := range t.Args {
+				walk(a)
+			}
+		case *spec.EMethod:
+			walk(t.X)
+			for _, a := range t.Args {
+				walk(a)
+			}
+		case *spec.EField:
+			walk(t.X)
+		case *spec.EIndex:
+			walk(t.X)
+			walk(t.I)
+		case *spec.ESlice:
+			walk(t.X)
+			walk(t.Lo)
+			walk(t.Hi)
+		case *spec.EOld:
+			walk(t.X)
+		case *spec.EStruct:
+			for _, a := range t.Elems {
+				walk(a)
+			}
+		case *spec.EList:
+			for _, a := range t.Elems {
+				walk(a)
+			}
+		case *spec.EQuant:
+			walk(t.Body)
+		}
+	}
+	walk(x)
+	return found
 }
 
 func conjuncts(x spec.Expr) []spec.Expr {
